@@ -193,7 +193,7 @@ func c19Run(c *core.C) {
 	// the shared parsed values contain set literals written in no particular order
 	sh.pFact, _ = psr.Fact(`resource("file1")`, nil)
 	sh.pRule, _ = psr.Rule(`can_read($f) <- resource($f), $f.starts_with("file") || [3, 1, 2].contains(3) || ["write", "read"].contains("x")`, nil)
-	sh.pCheck, _ = psr.Check(`check if resource($r), $r.length() > 0 or operation("read"), ["z", "b", "a"].contains("b")`, nil)
+	sh.pCheck, _ = psr.Check(`check if resource($r), operation($o), resource($r2), $r.length() > 0 or operation("read"), ["z", "b", "a"].contains("b") or resource($any)`, nil)
 	parsedBefore := fmt.Sprintf("%v %v %v", sh.pFact, sh.pRule, sh.pCheck)
 	sh.pPolicy, _ = psr.Policy(`allow if resource($any)`, nil)
 	for i := 0; i < 3; i++ {
